@@ -29,6 +29,13 @@ def main():
     r = subprocess.run([sys.executable, "-m", "gtmon.protoc_selftest", d], env=dict(os.environ, PYTHONPATH=VERIF),
                        capture_output=True, text=True, cwd=VERIF)
     print(r.stdout.strip() or r.stderr.strip()[-500:])
+    # trusted base: the reference codec against golden vectors and against
+    # tables written by the C++ implementation (python/tests/hello.gtirb)
+    r = subprocess.run([sys.executable, "-m", "gtmon.oracle_selftest", d],
+                       env=env, capture_output=True, text=True, cwd=VERIF)
+    print(r.stdout.strip() or r.stderr.strip()[-500:])
+    if r.returncode != 0:
+        ok = False
     print("javac:", shutil.which("javac") or "absent (C08 Java cross-check will be skipped)")
     return 0 if ok else 1
 
